@@ -169,12 +169,20 @@ def audit(prop: str, thorough: bool = False) -> Audit:
         mods = [
             str(f.relative_to(LEAN))[:-5].replace("/", ".") for f in imports_closure(pfile)
         ]
-        p = subprocess.run(
-            ["lake", "env", "leanchecker", *mods], cwd=LEAN, capture_output=True, text=True,
-            timeout=3000,
-        )
-        if p.returncode != 0:
-            a.problems.append("leanchecker rejected: " + (p.stdout + p.stderr)[-2000:])
+        # in batches: one process for the whole closure of a node-layer property needs 20 GB; eight modules at a time
+        # stay below 6 GB.  A checker process that is killed (memory, time) is infrastructure trouble, not a rejected proof.
+        B = int(os.environ.get("VERIF_LEANCHECKER_BATCH", "8"))
+        for i in range(0, len(mods), B):
+            try:
+                p = subprocess.run(["lake", "env", "leanchecker", *mods[i:i + B]], cwd=LEAN, capture_output=True, text=True,
+                                   timeout=3000)
+            except subprocess.TimeoutExpired:
+                raise Infra("leanchecker timed out on " + " ".join(mods[i:i + B]))
+            if p.returncode < 0 or p.returncode in (137, 139):
+                raise Infra(f"leanchecker was killed (status {p.returncode}) on " + " ".join(mods[i:i + B]))
+            if p.returncode != 0:
+                a.problems.append("leanchecker rejected: " + (p.stdout + p.stderr)[-2000:])
+                break
     return a
 
 
